@@ -7,6 +7,25 @@ use std::fmt::Debug;
 mod binder_impls;
 mod boring_impls;
 mod in_place;
+
+/// Verification hook: the crate-private in-place mapping routines, so that the simulator in
+/// /verif can drive them with element types of different layout.
+#[cfg(chalk_verif)]
+pub fn verif_fallible_map_vec<T, U, E>(
+    vec: Vec<T>,
+    map: impl FnMut(T) -> Result<U, E>,
+) -> Result<Vec<U>, E> {
+    in_place::fallible_map_vec(vec, map)
+}
+
+/// Verification hook: see `verif_fallible_map_vec`.
+#[cfg(chalk_verif)]
+pub fn verif_fallible_map_box<T, U, E>(
+    b: Box<T>,
+    map: impl FnOnce(T) -> Result<U, E>,
+) -> Result<Box<U>, E> {
+    in_place::fallible_map_box(b, map)
+}
 pub mod shift;
 mod subst;
 
